@@ -35,6 +35,7 @@ class E:
         self.kwargs = kwargs or {}
         self.b0 = b0                    # callable(recv_obj) -> {"self.num_e": n}
         self.note = note
+        self.model = True               # False: acceptance is not a sequence of shape checks; judged by the oracle only
 
 
 K3, S3, EQ4, SEQ4 = ("k", 3), (3,), ("k", 4), (4,)
@@ -50,7 +51,7 @@ def add(*a, **k):
 PF = "plane._plane_functions."
 add("plane.plane_normal_from_points", PF + "plane_normal_from_points", {"points": "tri"},
     [{"points": (3, 3)}, {"points": ("k", 3, 3)}],
-    deleg=[(PF + "plane_normal_from_points.__delegates__", {})],  # replaced below
+    deleg=[("tri.functions.surface_normals", {"points": "points"})],
     stack=dict(args=["points"], single=True, empty=True))
 add("plane.plane_equation_from_points", PF + "plane_equation_from_points", {"points": "tri"},
     [{"points": (3, 3)}, {"points": ("k", 3, 3)}], stack=dict(args=["points"], single=True, empty=True))
@@ -59,8 +60,10 @@ add("plane.normal_and_offset_from_plane_equations", PF + "normal_and_offset_from
     stack=dict(args=["plane_equations"], single=True, empty=True))
 for fn in ("signed_distance_to_plane", "project_point_to_plane", "mirror_point_across_plane"):
     add("plane." + fn, PF + fn, {"points": "pt", "plane_equations": "eq"},
+        # the third form (one point against a stack of planes) is not in the docstring; the code admits it
+        # explicitly (`-1 if k is None else k`) and computes it row by row, so it is listed as documented
         [{"points": S3, "plane_equations": SEQ4}, {"points": K3, "plane_equations": SEQ4},
-         {"points": K3, "plane_equations": EQ4}],
+         {"points": S3, "plane_equations": ("m", 4)}, {"points": K3, "plane_equations": EQ4}],
         stack=dict(args=["points", "plane_equations"], single=True, empty=True))
 add("plane.intersect_segment_with_plane", "plane._plane_intersect.intersect_segment_with_plane",
     {"start_points": "pt", "segment_vectors": "vec", "points_on_plane": "pt", "plane_normals": "vec"},
@@ -82,8 +85,9 @@ add("line.project_point_to_line", "line._line_functions.project_point_to_line",
     {"points": "pt", "reference_points_of_lines": "pt", "vectors_along_lines": "vec"},
     [{"points": S3, "reference_points_of_lines": S3, "vectors_along_lines": S3},
      {"points": K3, "reference_points_of_lines": S3, "vectors_along_lines": S3},
+     {"points": S3, "reference_points_of_lines": ("m", 3), "vectors_along_lines": ("m", 3)},  # see signed_distance_to_plane
      {"points": K3, "reference_points_of_lines": K3, "vectors_along_lines": K3}],
-    stack=dict(args=["points", "reference_points_of_lines", "vectors_along_lines"], single=True, empty=True))
+    stack=dict(args=["points", "reference_points_of_lines", "vectors_along_lines"], single=True, empty=True, rtol=True))
 add("line.coplanar_points_are_on_same_side_of_line", "line._line_functions.coplanar_points_are_on_same_side_of_line",
     {"a": "pt", "b": "pt", "p1": "pt", "p2": "pt"},
     [{a: S3 for a in ("a", "b", "p1", "p2")}, {a: K3 for a in ("a", "b", "p1", "p2")}],
@@ -129,13 +133,14 @@ add("transform.apply_transform", "transform._apply.apply_transform", {"transform
 add("transform.apply_transform()", "transform._apply.apply_transform.<locals>.apply", {"points": "pt"},
     [{"points": S3}, {"points": K3}], recv="applied",
     call=lambda r, a: r(**a), stack=dict(args=["points"], single=True, empty=True, rtol=True))
-add("transform.euler", "transform._rotation.euler", {"xyz": "angles"}, [{"xyz": (1,)}, {"xyz": (2,)}, {"xyz": (3,)}])
+# the docstring does not say how many angles; they are paired with the axes of `order` (zip): any 1-D array
+add("transform.euler", "transform._rotation.euler", {"xyz": "angles"}, [{"xyz": ("n",)}])
 RO = "transform._rodrigues."
 add("transform.rodrigues_vector_to_rotation_matrix", RO + "rodrigues_vector_to_rotation_matrix", {"r": "rodrigues"},
-    [{"r": S3}])
+    [{"r": S3}, {"r": (3, 1)}, {"r": (1, 3)}])   # "a 3x1 or 1x3 Rodrigues vector"
 add("transform.rotation_matrix_to_rodrigues_vector", RO + "rotation_matrix_to_rodrigues_vector", {"r": "rot3"},
     [{"r": (3, 3)}])
-add("transform.cv2_rodrigues", RO + "cv2_rodrigues", {"r": "rodrigues"}, [{"r": S3}, {"r": (3, 3)}],
+add("transform.cv2_rodrigues", RO + "cv2_rodrigues", {"r": "rodrigues"}, [{"r": S3}, {"r": (3, 1)}, {"r": (1, 3)}, {"r": (3, 3)}],
     deleg=[(RO + "__cv2__", {})])
 add("transform.rotation_from_up_and_look", "transform._rotation.rotation_from_up_and_look", {"up": "up", "look": "look"},
     [{"up": S3, "look": S3}])
@@ -261,12 +266,12 @@ add("Line.project", LO + "project", {"points": "pt"}, [{"points": S3}, {"points"
     deleg=[("line._line_functions.project_point_to_line",
             {"points": "points", "reference_points_of_lines": ("const", "AArr [3]"),
              "vectors_along_lines": ("const", "AArr [3]")})],
-    stack=dict(args=["points"], single=True, empty=True))
+    stack=dict(args=["points"], single=True, empty=True, rtol=True))
 
 # ---- Polyline -----------------------------------------------------------------------------------------------------------
 YO = "polyline._polyline_object.Polyline."
 add("Polyline.__init__", YO + "__init__", {"v": "pt"}, [{"v": K3}], call=ctor("Polyline"))
-add("Polyline.join", YO + "join", recv="polyline", call=lambda r, a: type(r).join(r, r.flipped()))
+add("Polyline.join", YO + "join", recv="polyline_open", call=lambda r, a: type(r).join(r, r.flipped()))
 add("Polyline.__len__", YO + "__len__", recv="polyline", call=lambda r, a: len(r))
 for nm in ("num_v", "num_e", "segments", "segment_vectors", "segment_lengths", "total_length", "path_centroid",
            "bounding_box"):
@@ -280,7 +285,7 @@ add("Polyline.index_of_vertex", YO + "index_of_vertex", {"point": "vertex"}, [{"
     call=meth("index_of_vertex"))
 add("Polyline.with_insertions", YO + "with_insertions", {"points": "pt", "indices": "insidx"},
     [{"points": K3, "indices": ("k",)}], recv="polyline", call=meth("with_insertions"))
-add("Polyline.aligned_with", YO + "aligned_with", {"vector": "vec"}, [{"vector": S3}], recv="polyline", call=meth("aligned_with"))
+add("Polyline.aligned_with", YO + "aligned_with", {"vector": "vec"}, [{"vector": S3}], recv="polyline_open", call=meth("aligned_with"))
 add("Polyline.aligned_along_subsegment", YO + "aligned_along_subsegment", {"p1": "pt", "p2": "pt"}, [{"p1": S3, "p2": S3}],
     recv="polyline_open", call=meth("aligned_along_subsegment"),
     deleg=[(YO + "nearest", {"points": "p1"}), (YO + "nearest", {"points": "p2"})])
@@ -290,11 +295,12 @@ add("Polyline.subdivided_by_length", YO + "subdivided_by_length", {"edges_to_sub
     call=meth("subdivided_by_length"), kwargs={"max_length": 0.75}, b0=lambda r: {"self.num_e": r.num_e})
 add("Polyline.with_segments_bisected", YO + "with_segments_bisected", {"segment_indices": "segidx"},
     [{"segment_indices": ("m>=1",)}], recv="polyline", call=meth("with_segments_bisected"))
-add("Polyline.apex", YO + "apex", {"axis": "vec"}, [{"axis": S3}], recv="polyline", call=meth("apex"))
+add("Polyline.apex", YO + "apex", {"axis": "vec"}, [{"axis": S3}], recv="polyline", call=meth("apex"),
+    deleg=[("vg.core.apex", {"points": ("const", "AArr [7; 3]"), "along": "axis"})])   # external (vg), hand-written contract
 add("Polyline.intersect_plane", YO + "intersect_plane", recv="polyline",
-    call=lambda r, a: r.intersect_plane(__import__("polliwog").Plane(np.array([0.25, 0.25, 0.25]), np.array([1.0, 0.0, 0.0]))))
+    call=lambda r, a: r.intersect_plane(__import__("polliwog").Plane((r.v[0] + r.v[1]) / 2, np.array([1.0, 0.0, 0.0]))))
 add("Polyline.sliced_by_plane", YO + "sliced_by_plane", recv="polyline_open",
-    call=lambda r, a: r.sliced_by_plane(__import__("polliwog").Plane(np.array([0.25, 0.25, 0.25]), np.array([-1.0, 0.0, 0.0]))))
+    call=lambda r, a: r.sliced_by_plane(__import__("polliwog").Plane((r.v[0] + r.v[1]) / 2, np.array([1.0, 0.0, 0.0]))))
 add("Polyline.sliced_at_indices", YO + "sliced_at_indices", recv="polyline", call=meth("sliced_at_indices"),
     kwargs={"start": 1, "stop": 3})
 add("Polyline.nearest", YO + "nearest", {"points": "pt"}, [{"points": S3}, {"points": K3}], recv="polyline",
@@ -365,14 +371,16 @@ SECOND = {
 
 # fix-ups of placeholder rows
 for e in R:
-    e.deleg = [(P + c if not c.startswith(P) else c, w) for c, w in e.deleg
+    e.deleg = [(P + c if not (c.startswith(P) or c.startswith("vg.")) else c, w) for c, w in e.deleg
                if not c.endswith("__delegates__") and not c.endswith("__cv2__")]
-    if e.public == "plane.plane_normal_from_points":
-        e.deleg = []
     if e.public == "transform.cv2_rodrigues":
         e.deleg = []
 
 BY_PUBLIC = {e.public: e for e in R}
+BY_PUBLIC["transform.cv2_rodrigues"].model = False   # dispatches on r.size == 3 / r.shape == (3, 3), else ValueError
+
+# contracts of the checks done OUTSIDE polliwog (vg), hand-written from site-packages/vg/core.py (trusted)
+EXTERNAL = [("vg.core.apex", ['Check "points" [DAny; DInt 3] None', 'Check "along" [DInt 3] None'])]
 
 
 def effective_delegs(e):
